@@ -5,7 +5,7 @@ CHEAP_OPENINGS = (2, 3, 4, 5, 6, 7, 8, 9, 11, 12, 13)   # strings, escapes, comm
 BLOCK_OPENINGS = (1, 10, 14, 15)                          # inside a block string (expensive: the line split forks)
 
 
-def lex_cases(maxn_quick, maxn_thorough, openings=True):
+def lex_cases(maxn_quick, maxn_thorough, openings=True, cheap_top=(4, 5)):
     """Plain inputs of n symbolic bytes after the cursor (sizes measured to finish), three
     resting states, and - hlex.Openings - concrete openings followed by a few symbolic bytes."""
     def f(tier, seed):
@@ -18,9 +18,9 @@ def lex_cases(maxn_quick, maxn_thorough, openings=True):
         if not openings:
             return cs
         for o in CHEAP_OPENINGS:
-            top = 4 if tier == "quick" else 5
-            if o == 12:
-                top = 4        # inside a byte order mark: 5 bytes after it do not finish in 900 s
+            top = cheap_top[0] if tier == "quick" else cheap_top[1]
+            if o == 12 and cheap_top == (4, 5):
+                top = 4        # inside a byte order mark: 5 bytes after it do not finish in 900 s (reference lexer unit)
             for n in range(0, top + 1):
                 cs.append(dict(base, n=n, open=o))
         for o in BLOCK_OPENINGS:
@@ -29,6 +29,10 @@ def lex_cases(maxn_quick, maxn_thorough, openings=True):
                 top = 4            # ~1-2 min each; quick takes the plain block string and the after-CR state
             for n in range(0, top + 1):
                 cs.append(dict(base, n=n, open=o))
+            # the same opening at the very beginning of a source (as many bytes as characters before the
+            # cursor: the other resting states have more characters than bytes, which no run reaches, and
+            # hide a byte offset used as a character count)
+            cs.append({"n": top, "open": o, "p": 0, "r0": 0, "l0": 1, "ls0": 0})
         return cs
     return f
 
@@ -149,8 +153,14 @@ def schema_order_cases(tier, seed):
             combos = [(0, 1)]                # reversed, one source per definition
             if c["shape"] == 7:              # extension-only types: also every rotation in one source
                 combos += [(o, 0) for o in range(1, n)]
+        elif c["shape"] == 7:               # light: every order over one source per definition, every cut of the reversal
+            combos = [(o, 1) for o in range(n_orders)] + [(0, 0)] + [(0, 1 + k) for k in range(1, n)] + [(o, 0) for o in range(1, n)]
         else:
-            combos = [(o, 1) for o in range(n_orders)] + [(0, 0)] + [(0, 1 + k) for k in range(1, n)] + [(1, 0)]
+            def transposition(a, b):         # index of the order that swaps definitions a < b
+                return n + sum(n - 1 - i for i in range(a)) + (b - a - 1)
+            mid = n // 2
+            combos = [(0, 1), (0, 0), (0, 1 + mid), (1, 1), (1, 0), (n - 1, 1),
+                      (transposition(0, 1), 1), (transposition(0, n - 1), 1), (transposition(mid - 1, mid), 1)]
         for o, sp in combos:
             cs.append(dict(c, order=o, split=sp))
     return cs
@@ -224,7 +234,7 @@ VALIDATE_ASSUME = [
 CHECKS = {
     "C01": {
         "units": [
-            {"pkg": "verifh/hlex", "fn": "StepTotal", "cases": lex_cases(5, 7), "panic_prop": "C01"},
+            {"pkg": "verifh/hlex", "fn": "StepTotal", "cases": lex_cases(5, 7, cheap_top=(5, 6)), "panic_prop": "C01"},
             {"pkg": "verifh/hparse", "fn": "QueryTotal", "cases": stream_cases(NQ_PREFIX, NQ_ALPHA, 3, 2, 5, 4, {"invalid": 1}), "panic_prop": "C01"},
             {"pkg": "verifh/hparse", "fn": "SchemaTotal", "cases": stream_cases(NS_PREFIX, NS_ALPHA, 3, 2, 4, 3, {"invalid": 1}), "panic_prop": "C01"},
         ],
@@ -285,9 +295,9 @@ CHECKS = {
         "covers": ["C17.both-loaded", "C17.both-rejected"],
         "case_timeout": {"quick": 600, "thorough": 2400},
         "level_text": "Self-composition: the definitions of a type-system shape (same solver variables for the names) are loaded once in the written order from one source and once reordered / distributed over sources; verdicts and, when both load, the two schemas (types, fields/values/members/interfaces as sets, relations, roots, directives) are asserted equal; an error must name one of the sources.",
-        "bounds": {"quick": "the C07 shapes; orders: reversed, every rotation and every transposition of the 3-8 definitions (case split, not all n! orders); distributions: one source, one source per definition, two sources cut at every position",
-                   "thorough": "same"},
-        "outside": "orders that are neither a reversal, a rotation nor a transposition of the written order; more than one source per definition; more than 8 definitions",
+        "bounds": {"quick": "the C07 shapes (53 pieces), each reversed over one source per definition; the extension-only shape also under every rotation in one source",
+                   "thorough": "each piece under 9 reorderings / distributions (reversed: one source per definition, one source, two sources cut in the middle; rotated by one and by n-1; first two, first and last, middle two definitions swapped); the extension-only shape under the reversal, every rotation and every transposition of its 8 definitions and every two-source cut"},
+        "outside": "all other orders and distributions (n! orders x all partitions are not explored: 9 per piece, 52 for the extension-only shape); more than 8 definitions",
         "assumptions": PARSE_ASSUME + ["the prelude is parsed with the real lexer, concretely"],
     },
     "C12": {
@@ -385,7 +395,7 @@ CHECKS = {
     },
     "C20": {
         "units": [
-            {"pkg": "verifh/hlex", "fn": "StepTotal", "cases": lex_cases(4, 6), "panic_prop": None},
+            {"pkg": "verifh/hlex", "fn": "StepTotal", "cases": lex_cases(4, 6, cheap_top=(5, 6)), "panic_prop": None},
             {"pkg": "verifh/hparse", "fn": "QueryTotal", "cases": stream_cases(NQ_PREFIX, NQ_ALPHA, 3, 2, 4, 3, {"invalid": 1}), "panic_prop": None},
             {"pkg": "verifh/hparse", "fn": "SchemaTotal", "cases": stream_cases(NS_PREFIX, NS_ALPHA, 3, 2, 4, 3, {"invalid": 1}), "panic_prop": None},
             {"pkg": "verifh/hval", "fn": "ValidateRef", "cases": validate_cases, "panic_prop": None},
